@@ -42,6 +42,7 @@ type fieldOps struct {
 	sel      func(a, b interface{}, cond int) interface{}
 	bytes    func(a interface{}) []byte
 	toBig    func(a interface{}) *big.Int
+	raw      func(a interface{}) [4]uint64
 	isZero   func(a interface{}) int
 	equal    func(a, b interface{}) int
 	aliasMul func(a interface{}) interface{} // e.Mul(e,e) on a copy
@@ -71,6 +72,7 @@ func fieldP() *fieldOps {
 		sel:    func(a, b interface{}, c int) interface{} { return new(SM2Element).Select(E(a), E(b), c) },
 		bytes:  func(a interface{}) []byte { return E(a).Bytes() },
 		toBig:  func(a interface{}) *big.Int { return E(a).ToBigInt() },
+		raw:    func(a interface{}) [4]uint64 { return [4]uint64(E(a).x) },
 		isZero: func(a interface{}) int { return E(a).IsZero() },
 		equal:  func(a, b interface{}) int { return E(a).Equal(E(b)) },
 		aliasMul: func(a interface{}) interface{} {
@@ -109,6 +111,7 @@ func fieldN() *fieldOps {
 		sel:    func(a, b interface{}, c int) interface{} { return new(SM2ScalarElement).Select(E(a), E(b), c) },
 		bytes:  func(a interface{}) []byte { return E(a).Bytes() },
 		toBig:  func(a interface{}) *big.Int { return E(a).ToBigInt() },
+		raw:    func(a interface{}) [4]uint64 { return [4]uint64(E(a).x) },
 		isZero: func(a interface{}) int { return E(a).IsZero() },
 		equal:  func(a, b interface{}) int { return E(a).Equal(E(b)) },
 		aliasMul: func(a interface{}) interface{} {
@@ -216,6 +219,14 @@ func TestVerifC16(t *testing.T) {
 		}
 
 		chk := func(op string, got interface{}, want *big.Int, operands ...*big.Int) {
+			// the internal (Montgomery) representation must itself be canonical: limbs < modulus
+			if fromLimbs(f.raw(got)).Cmp(m) >= 0 {
+				d := hk.D{"field": f.name, "op": op, "limbs": fmt.Sprintf("%x", f.raw(got))}
+				for i, o := range operands {
+					d[fmt.Sprintf("arg%d", i)] = hk.Hex(c16b32(o))
+				}
+				r.Violation(fmt.Sprintf("field-%s-%s-result-not-canonical", f.name, op), d)
+			}
 			gb := f.bytes(got)
 			if !bytes.Equal(gb, c16b32(want)) {
 				d := hk.D{"field": f.name, "op": op, "got": hk.Hex(gb), "want": hk.Hex(c16b32(want))}
